@@ -25,6 +25,17 @@ def search(P, name, prop, seed, budget=200):
 
 
 def _c02(P, name, decl, rng):
+    if decl.kind == "packet":
+        cls = P.cls(name)
+        for meth, en, declared in (("family", "PacketFamily", decl.family), ("action", "PacketAction", decl.action)):
+            ev = P.spec.enums[en].by_name(declared)
+            try:
+                got = getattr(cls, meth)()
+            except Exception as e:
+                return {"kind": "packet-" + meth + "-raises", "property": "C02", "declared": declared, "exception": repr(e)}, 1
+            if int(got) != ev[1] or got.name != ev[2]:
+                return {"kind": "packet-reports-wrong-" + meth, "property": "C02", "declared": declared,
+                        "reported": repr(got)}, 1
     tree = P.gen_tree(decl, rng)
     obj = P.build(tree)
     n = 0
